@@ -161,7 +161,7 @@ def check_kills(ctx):
     P = ctx.P
     kfs = c11.killer_funcs(P)
     sites = [(fn_, c) for fn_, c in package_calls(P, "kill") if isinstance(c.func, ast.Attribute)]
-    ctx.count_min("Container.kill call sites", len(sites), 2)
+    ctx.count_min("Container.kill call sites", len(sites), 1)
     for fn_, c in sites:
         ok = fn_.mod.rel == RP and fn_.cls == "ResourcePool"
         ctx.ob(5, "K1", "containers are killed only by the pool's OOM killer (a ResourcePool method)", ok, fn_, c, detail=f"kill call in {fn_.mod.rel}::{fn_.qual}")
